@@ -33,6 +33,13 @@ Clause(e) ==
     [] e.k = "limit" ->    \* validator's amount limit probed: accepts value iff 0 < value <= limit
          IF Strip(e.largest_accepted) # Strip(DocMax) THEN "C16:validator_amount_limit_differs_from_maximum_supply"
          ELSE IF e.zero_accepted THEN "C16:validator_accepts_zero_amount" ELSE ""
+    [] e.k = "enforce" ->  \* the validator's reward rule probed at height h (no fees): a reward of v is accepted iff v <= subsidy(h)
+         LET S == SubsidyOfEra(IF Len(Strip(DivSmall(e.h, Interval))) > 3 THEN 64 ELSE EraOfHeight(e.h))
+         IN IF e.accepted /\ e.v > S THEN "C16:validator_accepts_a_reward_above_the_subsidy_of_that_height"
+            ELSE IF ~e.accepted /\ e.v <= S THEN "C16:validator_rejects_the_documented_subsidy_of_that_height" ELSE ""
+    [] e.k = "mint" ->     \* the reward the node's own block assembly claims at height h without fees
+         LET S == SubsidyOfEra(IF Len(Strip(DivSmall(e.h, Interval))) > 3 THEN 64 ELSE EraOfHeight(e.h))
+         IN IF e.v # S THEN "C16:assembled_reward_differs_from_the_subsidy_of_that_height" ELSE ""
     [] OTHER -> "machinery:unknown_event"
 
 TInit == SInit /\ l = 1 /\ done = FALSE
